@@ -52,11 +52,14 @@ def check(run):
                     member = a[1][1]
                     n += 1
                     ok, f, line = agreement.reset_clears(facts, s, member, r)
+                    if ok is None:
+                        ok = False
                     run.ob("R09.2", "%s.%s:starts-absent" % (short(s), member), ok, f or r, line or r["line"],
                            "read() starts with %s empty (%s)" % (member, short(f["qn"]) if f else "?") if ok else
                            ("optional member %s is written only when present, but %s installs a value before reading: a file "
-                            "without the member reads back with a phantom value" % (member, short(f["qn"]) if f else "reset()")
-                            if ok is False else "no reset/clear of %s found" % member))
+                            "without the member reads back with a phantom value" % (member, short(f["qn"]) if f else "nothing in read()/reset() empties it, or a default")
+                            if ok is False else "read() neither calls a reset()/clear() that empties %s nor clears it itself: a value of a previous "
+                            "read survives when this encoding omits the member" % member))
     run.floor("R09.2", 15, "optional members")
 
     # R09.3 present-but-empty stays present: struct-valued members emit exactly one item under the caller's guard
